@@ -390,6 +390,26 @@ def ramp_check(kind, case, rec):
     if kind.startswith("pointload"):
         item = fem.PointLoad(fc, points=pts, values=0.0 * direction, axisymmetric=axi)
         table = np.array([v * direction for v in ramp])
+    elif kind == "formitem":
+        # a weak-form item with several keyword arguments; the ramped one is addressed by its index (ramp_item) or by name
+        from felupe.math import dot  # noqa
+
+        gdir = np.zeros(dim)
+        gdir[:] = rng.uniform(-1, 1, dim)
+        which = case["seed"] % 3  # 0: first by index (default), 1: second by index, 2: by name
+
+        @fem.Form(v=fc)
+        def lform():
+            def L(v, value, multiplier, **kw):
+                f_ = (value if which != 1 else multiplier) * (multiplier if which != 1 else value)
+                return -f_ * sum(gdir[i_] * v[i_] for i_ in range(dim))
+
+            return [L]
+
+        kwf = {"value": 0.0, "multiplier": 3.0} if which != 1 else {"value": 3.0, "multiplier": 0.0}
+        item = fem.FormItem(linearform=lform, kwargs=kwf, ramp_item=(0, 1, "value")[which])
+        table = np.array(ramp)
+        rec.label("formitem-ramp_item=%s" % (["index 0", "index 1", "name"][which]))
     else:
         dens = 1.7
         item = fem.SolidBodyGravity(fc, gravity=[0.0] * 3, density=dens)
@@ -399,11 +419,18 @@ def ramp_check(kind, case, rec):
     step = fem.Step(items=[body, item], ramp={item: table}, boundaries=bounds)
     rec.nontrivial = len(ramp) >= 2
     n = 0
+    iters = []
     try:
         for i, res in enumerate(step.generate(tol=1e-9)):
             n += 1
+            iters.append(int(res.iterations))
             f = np.asarray(item.assemble.vector(res.x).toarray()).reshape(-1, dim)
-            if kind.startswith("pointload"):
+            if kind == "formitem":
+                V = float(region.dV.sum())
+                ref = -3.0 * table[i] * gdir * V
+                rec.close("load-of-substep-i=load-of-ramp-value-i", float(np.abs(f.sum(0) - ref).max()), 1e-12 * max(1.0, float(np.abs(ref).max())), {"substep": i})
+                rec.require("other-keyword-arguments-untouched", item.kwargs[("multiplier", "value", "multiplier")[which]] == 3.0, dict(item.kwargs))
+            elif kind.startswith("pointload"):
                 ref = np.zeros_like(f)
                 ref[pts] = table[i] * (2 * np.pi * X[pts, 1:2] if axi else 1.0)
                 rec.close("load-of-substep-i=load-of-ramp-value-i", float(np.abs(f - ref).max()), 1e-13 * max(1.0, float(np.abs(ref).max())), {"substep": i})
@@ -415,6 +442,18 @@ def ramp_check(kind, case, rec):
         rec.label("natural-failure")
         return
     rec.require("yield-count", n == len(ramp), [n, len(ramp)])
+    # an iteration limit that is exactly the number of iterations the hardest substep needs: still one result per substep
+    if iters and kind != "formitem":
+        for f_ in fc.fields:
+            f_.values[...] = 0.0
+        body2 = fem.SolidBody(fem.NeoHooke(mu=case["mu"], bulk=5.0), fc)
+        item.update(table[0] * 0)
+        step2 = fem.Step(items=[body2, item], ramp={item: table}, boundaries=bounds)
+        try:
+            n2 = len(list(step2.generate(tol=1e-9, maxiter=max(iters))))
+        except ValueError:
+            n2 = -1
+        rec.require("maxiter=needed-iterations:all-substeps-yielded", n2 == len(ramp), {"yielded": n2, "substeps": len(ramp), "maxiter": max(iters)})
     # a step without a ramp is one substep with the items and boundaries as they are (the last ramp value stays applied)
     x_before = np.concatenate([f.values.ravel() for f in fc.fields]).copy()
     out = list(fem.Step(items=[body, item], boundaries=bounds).generate(tol=1e-9))
@@ -425,7 +464,7 @@ def ramp_check(kind, case, rec):
 
 
 FAMILIES = [
-    Family("ramped-items", ["pointload", "pointload-axi", "gravity"], ramp_check, strategy=ramp_strategy, n={"quick": 6, "thorough": 150}, chunk=3),
+    Family("ramped-items", ["pointload", "pointload-axi", "gravity", "formitem"], ramp_check, strategy=ramp_strategy, n={"quick": 6, "thorough": 150}, chunk=3),
     Family("history", CLASSES, check, strategy=strategy, n={"quick": 8, "thorough": 200}, chunk=4, weight=4),
     Family("job", ["job", "curve"], job_check, strategy=job_strategy, n={"quick": 10, "thorough": 200}, chunk=5, weight=2),
 ]
